@@ -51,7 +51,8 @@ HAZARDS = {
 def plan(tier, seed):
     n = 16
     q = tier == 'quick'
-    return [{'shard': i, 'of': n, 'timeout': 900 if q else 7200, 'budget_s': 50 if q else 1000} for i in range(n)]
+    # the watchdog only ever produces "inconclusive" (e.g. an expansion that does not terminate)
+    return [{'shard': i, 'of': n, 'timeout': 300 if q else 3000, 'budget_s': 50 if q else 1000} for i in range(n)]
 
 RE_PAIR = re.compile(r':s(\d+)_(\d+):(.*?):e\1_\2:', re.S)
 
@@ -246,7 +247,13 @@ def run(shard, spec):
             hazard = ['esc', 'fmt-angle', 'let-space'][(fi // 40) % 3]
             nch = 1
         f = mg.make_file(rng, nch, hazard=hazard)
-        results, fail = check_file(shard, f, fi)
+        try:
+            with harness.time_limit(120):
+                results, fail = check_file(shard, f, fi)
+        except harness.CaseTimeout:
+            shard.note_inconclusive('file %d: the tools did not finish within 120 s (wall-clock watchdog, not a verdict)' % fi)
+            shard.inc('watchdog_fired')
+            continue
         if fail is not None:
             if isolated < 4:
                 isolated += 1
